@@ -116,10 +116,10 @@ GEOMS_DD = [(40, 18), (80, 18), (35, 18)]
 
 @st.composite
 def surface(draw, variants=("acorn", "watford", "opus"), geoms=None, chars=None, dirs=None,
-            zero_ok=True, big_ok=True, tracks_full=True):
+            zero_ok=True, big_ok=True, tracks_full=True, opus_geoms=None):
     variant = draw(st.sampled_from(variants))
     if variant == "opus":
-        tracks, spt = draw(st.sampled_from(GEOMS_DD))
+        tracks, spt = draw(st.sampled_from(opus_geoms or GEOMS_DD))
     else:
         tracks, spt = draw(st.sampled_from(geoms or (GEOMS_SD + GEOMS_DD)))
     nsec = tracks * spt
